@@ -202,6 +202,16 @@ def laws_binwise_patchwise(L, tag, x, get_arr, rng, rebuild):
     for s in slices:
         L.check(f"{tag}.patches[slice]", lambda s=s: None if eq_arr(get_arr(x.patches[s]), _block(x, full, s))
                 else f"patches[{s}] differs from sub-array")
+    if npatch >= 2:
+        for _ in range(3):
+            sel = rng.permutation(npatch)[: int(rng.integers(2, npatch + 1))].tolist()  # any order, not only ascending
+            if tag == "PatchedSumWeights":
+                # its array form is built from the two weight vectors (upper triangle for auto): compare the vectors
+                L.check(f"{tag}.patches[list]", lambda sel=sel: None if eq_arr(x.patches[sel].sum_weights1, x.sum_weights1[:, sel])
+                        and eq_arr(x.patches[sel].sum_weights2, x.sum_weights2[:, sel]) else f"patches[{sel}]: weights are not the sub-arrays in that order")
+            else:
+                L.check(f"{tag}.patches[list]", lambda sel=sel: None if eq_arr(get_arr(x.patches[sel]), full[:, sel][:, :, sel])
+                        else f"patches[{sel}] differs from the sub-array taken in that order")
     L.check(f"{tag}.patches.iter", lambda: None if (
         len(lst := list(x.patches)) == npatch
         and all(eq_arr(get_arr(p), _block(x, full, slice(i, i + 1))) for i, p in enumerate(lst))
@@ -243,6 +253,18 @@ def laws_counts(L, rng, nb, npatch, auto):
     pert.counts[tuple(rng.integers(0, s) for s in pert.counts.shape)] += 1.0
     L.check(f"{tag}.neq-perturbed", lambda: None if a != pert and not (a == pert) else "perturbed compares equal")
     L.check(f"{tag}.neq-auto", lambda: None if a != PatchedCounts(binning, a.counts, auto=not auto) else "auto ignored by ==")
+
+    def constant_shapes():
+        for val in (0.0, 2.0):
+            one = PatchedCounts(binning, np.full((nb, 1, 1), val), auto=auto)
+            many = PatchedCounts(binning, np.full((nb, npatch + 1, npatch + 1), val), auto=auto)
+            if one == many or many == one or one.is_compatible(many):
+                return f"constant containers ({val}) with 1 and {npatch + 1} patches compare equal / compatible"
+            w1_ = PatchedSumWeights(binning, np.full((nb, 1), val), np.full((nb, 1), val), auto=auto)
+            wn_ = PatchedSumWeights(binning, np.full((nb, npatch + 1), val), np.full((nb, npatch + 1), val), auto=auto)
+            if w1_ == wn_ or wn_ == w1_:
+                return f"constant sums of weights ({val}) with 1 and {npatch + 1} patches compare equal"
+    L.check(f"{tag}.neq-constant-other-shape", constant_shapes)
     L.check(f"{tag}.neq-binning", lambda: None if a != PatchedCounts(flipped, a.counts, auto=auto) else "closed ignored by ==")
     L.check(f"{tag}.immutability", lambda: None if eq_arr((a + b).counts - b.counts, (a.counts + b.counts) - b.counts) else "operands mutated")
     a_np = PatchedCounts(binning, a.counts.copy(), auto=np.bool_(auto))  # the flag as numpy delivers it (e.g. read from a file)
@@ -315,6 +337,21 @@ def laws_counts(L, rng, nb, npatch, auto):
     L.check(f"{tag}.neq-perturbed", lambda: None if na != NormalisedCounts(pert, w) and na != NormalisedCounts(a, pw) else "perturbed compares equal")
     laws_binwise_patchwise(L, tag, na, lambda o: o.counts.get_array(), rng, None)
     L.check(f"{tag}.bins-sum-weights", lambda: None if na.bins[0].sum_weights == w.bins[0] else "bins[0] sum_weights differ")
+    if npatch >= 2:
+        for _ in range(3):
+            sel = rng.permutation(npatch)[: int(rng.integers(2, npatch + 1))].tolist()
+
+            def list_selection(sel=sel):
+                sub = na.patches[sel]
+                if not (eq_arr(sub.counts.counts, a.counts[:, sel][:, :, sel]) and eq_arr(sub.sum_weights.sum_weights1, sw1[:, sel])
+                        and eq_arr(sub.sum_weights.sum_weights2, sw2[:, sel])):
+                    return f"patches[{sel}]: counts and sums of weights are not the sub-arrays in that order"
+                want = NormalisedCounts(PatchedCounts(binning, a.counts[:, sel][:, :, sel], auto=auto),
+                                        PatchedSumWeights(binning, sw1[:, sel], sw2[:, sel], auto=auto)).sample_patch_sum()
+                got = sub.sample_patch_sum()
+                if not (eq_arr(got.data, want.data) and eq_arr(got.samples, want.samples)):
+                    return f"patches[{sel}] does not commute with sampling"
+            L.check(f"{tag}.patches[list]-sample", list_selection)
     sps = na.sample_patch_sum()
     for s in index_sets(nb, rng)[1][:6]:
         L.check(f"{tag}.bins-commute-sample", lambda s=s: None if (
@@ -367,7 +404,7 @@ def laws_corrfunc(L, rng, nb, npatch, auto):
     with np.errstate(all="ignore"):
         scale_d = sum(np.abs(t.data) for t in terms.values()) / np.abs(denom.data)
         scale_s = sum(np.abs(t.samples) for t in terms.values()) / np.abs(denom.samples)
-    for s in (2, 0.5, 1e6, np.float64(7)):
+    for s in (2, 0.5, 1e6, np.float64(7), -2.0, -0.5):
         def f(s=s):
             scaled = cf * s
             for k in cf.to_dict():
@@ -408,6 +445,21 @@ def laws_corrfunc(L, rng, nb, npatch, auto):
         sl = as_slice(i, npatch)
         L.check(f"{tag}.patches[int]", lambda i=i, sl=sl: None if eq_arr(cf.patches[i].dd.counts.counts, cf.dd.counts.counts[:, sl, sl]) else f"patches[{i}] differs")
     L.check(f"{tag}.patches.iter", lambda: None if len(list(cf.patches)) == npatch else "wrong number of patches iterated")
+    for _ in range(3):
+        sel = rng.permutation(npatch)[: int(rng.integers(2, npatch + 1))].tolist()
+
+        def cf_list(sel=sel):
+            sub = cf.patches[sel]
+            for k in cf.to_dict():
+                if not eq_arr(getattr(sub, k).counts.counts, getattr(cf, k).counts.counts[:, sel][:, :, sel]):
+                    return f"patches[{sel}].{k} is not the sub-array in that order"
+                if not eq_arr(getattr(sub, k).sum_weights.sum_weights1, getattr(cf, k).sum_weights.sum_weights1[:, sel]):
+                    return f"patches[{sel}].{k} sums of weights are not the sub-array in that order"
+            want = CorrFunc(**{k: getattr(cf, k).patches[sel] for k in cf.to_dict()}).sample()
+            got = sub.sample()
+            if not (eq_arr(got.data, want.data) and eq_arr(got.samples, want.samples)):
+                return f"patches[{sel}] does not commute with sample()"
+        L.check(f"{tag}.patches[list]", cf_list)
     L.raises(f"{tag}.bins[out-of-range]", lambda: cf.bins[nb])
     L.raises(f"{tag}.patches[out-of-range]", lambda: cf.patches[npatch])
     laws_inplace(L, tag, [cf, cf2, cf], lambda p, q: p + q, from_zero=False)
